@@ -30,7 +30,7 @@ def main():
         results = {}
         try:
             for pid in pids:
-                r = sh(f'./check {pid}', cwd=VERIF, timeout=3000)
+                r = sh(f'./check {pid}', cwd=VERIF, timeout=1200)
                 lines = [l for l in r.stdout.splitlines() if l.startswith('VIOLATION') or l.startswith(f'[{pid}]')]
                 results[pid] = {'exit': r.returncode, 'lines': [l[:300] for l in lines][:4]}
         finally:
@@ -50,7 +50,7 @@ def main():
             for pid in meta.get('checks') or [meta['property']]:
                 if pid not in done:
                     done.add(pid)
-                    r = sh(f'./check {pid}', cwd=VERIF, timeout=3000)
+                    r = sh(f'./check {pid}', cwd=VERIF, timeout=1200)
                     print('clean', pid, 'exit', r.returncode)
 
 
